@@ -173,10 +173,24 @@ def file_harness(L, kind, sw, ch, sr, KF):
         for step in range(KF):
             k = I("k%d" % step)
             args[step] = k
-            nops = 1 if kind == "stdin" else 4
+            nops = 2 if kind == "stdin" else 4
             opi = e.choose(nops)
             if kind == "stdin":
                 e.assume(k >= 0)
+                if opi == 1:
+                    # close, check that reading is refused, open again: standard input cannot start over, the stream goes on
+                    trace.append("reopen_stream")
+                    try:
+                        src.close()
+                        try:
+                            src.read(1)
+                            conds["%d:read while closed raises" % step] = False
+                        except iom.AudioIOError:
+                            pass
+                        src.open()
+                    except Exception:
+                        conds["%d:reopen" % step] = False
+                    continue
             if opi == 3:
                 # a redundant open() on an open source must not disturb the stream
                 trace.append("open_again")
@@ -435,6 +449,14 @@ def replay_fn(c):
                         pass
                     src.open()
                     pos = 0
+                elif op == "reopen_stream":
+                    src.close()
+                    try:
+                        src.read(1)
+                        return [("C11: reading a closed %s source does not raise" % c["kind"], desc)]
+                    except rio.AudioIOError:
+                        pass
+                    src.open()
             except Exception as ex:
                 exc = ex
             bad = None
